@@ -4,9 +4,12 @@ Written from docs/src/reference-main-arithmetic.md, reference-dsl-operators.md a
 `mlr help function ...` texts, on Python big ints and Python floats (IEEE-754 doubles).
 It shares nothing with pkg/bifs.  Where the documentation leaves a choice open the model
 accepts every reading (a set of acceptable results); where the documentation says
-nothing (zero divisors of // % ./ and of the modular functions, shift counts outside
-0..63, bit operators on floats, NaN through min/max/sgn) the expectation is only
-"a number or an error value, and no crash".
+nothing about the VALUE (int zero divisors of // % ./ roundm, modulus 0 and float operands of the
+modular functions, shift counts outside 0..63, bit operators on floats) the expectation is only
+"a number or an error value, and no crash"; where it says nothing about the value but the operation
+has a float operand (float zero divisors, Inf/NaN through %) the TYPE is still required: a float or
+an error value, never an int.  Negative moduli, roundm ties/overflow and NaN through min/max/sgn
+have small explicit sets of acceptable results.
 """
 import math
 import struct
@@ -302,15 +305,21 @@ POW_ULPS = 256
 POW_ULPS_PER_UNIT = 1.25
 
 
-def pow_ulps(y):
+def pow_ulps(y, x=None):
     """reference-dsl-operators.md documents the math functions as pass-throughs to the Go library, whose
-    math.Pow multiplies by repeated squaring: the rounding error of the first squarings (<= 2^-53 relative
-    each) is amplified by the remaining exponent, so the result is off by up to |y| * 2^-53 relative, i.e.
-    between |y|/2 and |y| ulp in the worst case (measured here: up to ~0.25 |y| ulp).  That inaccuracy is not
-    Miller's: tolerance 256 + 1.25 |y| ulp (|y| capped at 2^40).  Anything looser than the library's own
-    worst case would let a wrong-but-close power through."""
+    math.Pow (a) multiplies by repeated squaring for the integer part of y: the rounding error of the first
+    squarings (<= 2^-53 relative each) is amplified by the remaining exponent, so the result is off by up to
+    |y| * 2^-53 relative, i.e. between |y|/2 and |y| ulp in the worst case (measured here: up to ~0.65 |y| ulp);
+    (b) computes exp(yf * log(x)) for the fractional part yf of y: the rounding of z = yf * log(x) alone is
+    |z| * 2^-53 relative in the result, up to 2|z| ulp with log's own error (measured: 0.9 |z| ulp at |z| = 283).
+    That inaccuracy is not Miller's: tolerance 256 + 1.25 |y| + 2 |yf ln|x|| ulp (|y| capped at 2^40).  Anything
+    looser than the library's own worst case would let a wrong-but-close power through."""
     try:
-        return POW_ULPS + int(POW_ULPS_PER_UNIT * min(abs(y), 2.0 ** 40))
+        t = POW_ULPS + int(POW_ULPS_PER_UNIT * min(abs(y), 2.0 ** 40))
+        if x is not None and not is_int(y) and finite(y) and finite(x) and x > 0 and y != math.floor(y):
+            yf = abs(y) - math.floor(abs(y))
+            t += int(2 * yf * abs(math.log(x))) + 1
+        return t
     except (ValueError, OverflowError):
         return POW_ULPS
 
@@ -343,7 +352,7 @@ def _pow(a, b):
         # reference-dsl-operators.md: functions are "pass-throughs straight to the system-standard Go
         # libraries"; Go's math.Pow is far off C pow() on subnormals: no verdict there
         return any_("subnormal")
-    return Exp(floats=[r], ulps=pow_ulps(y), note="ieee")
+    return Exp(floats=[r], ulps=pow_ulps(y, x), note="ieee")
 
 
 def _dot(op, a, b):
